@@ -1360,16 +1360,31 @@ func hostnameFromHostPortBytes(hostPort []byte) []byte {
 }
 
 func isDomainOrSubdomainBytes(sub, parent []byte) bool {
-	if bytes.EqualFold(sub, parent) {
+	if equalFoldASCII(sub, parent) {
 		return true
 	}
 	if len(sub) <= len(parent) || bytes.IndexByte(sub, ':') >= 0 || bytes.IndexByte(sub, '%') >= 0 {
 		return false
 	}
-	if !bytes.EqualFold(sub[len(sub)-len(parent):], parent) {
+	if !equalFoldASCII(sub[len(sub)-len(parent):], parent) {
 		return false
 	}
 	return sub[len(sub)-len(parent)-1] == '.'
+}
+
+// equalFoldASCII reports whether a and b are equal under ASCII case folding.
+// bytes.EqualFold applies Unicode case folding, under which e.g. "\u212a.com"
+// (KELVIN SIGN) equals "k.com" although the two are different hosts on the wire.
+func equalFoldASCII(a, b []byte) bool {
+	if len(a) != len(b) {
+		return false
+	}
+	for i := range a {
+		if toLowerTable[a[i]] != toLowerTable[b[i]] {
+			return false
+		}
+	}
+	return true
 }
 
 func splitHostPortBytes(hostPort []byte) ([]byte, []byte) {
